@@ -202,7 +202,11 @@ class StmtMixin(CallMixin):
                 if st.mode == "code":
                     self.oblige(st, "safety:unpack", z3.And(self.is_kind(val, ["VTuple", "VList"]), z3.Length(self.seq_term(val)) == n))
                 seq = self.seq_term(val)
-                items = [T("V", seq[k]) for k in range(n)]
+                parts = self.concat_parts(seq)
+                if len(parts) == n and all(kind == "unit" for kind, _ in parts):
+                    items = [T("V", t) for _, t in parts]  # an explicit tuple: its components themselves
+                else:
+                    items = [T("V", seq[k]) for k in range(n)]
             for t, v in zip(tgt.elts, items):
                 st = self.bind_target(t, v, st)
             return st
